@@ -262,7 +262,8 @@ struct Stats {
     digest: u64,
     presence_patterns: HashSet<(String, Vec<bool>)>,
     samples: Vec<serde_json::Value>,
-    first_violation: Option<(u64, usize, Case, Outcome)>,
+    /// first violating case per finding key (what fails, not which seed found it)
+    violations: BTreeMap<String, (u64, usize, Case, Outcome)>,
 }
 
 fn run_range(seed: u64, from: u64, to: u64, thorough: bool) -> Stats {
@@ -297,9 +298,11 @@ fn run_range(seed: u64, from: u64, to: u64, thorough: bool) -> Stats {
                     "history": o.history.iter().map(|e| format!("{}:{}/{}", e.kind, e.taken, e.len)).collect::<Vec<_>>(),
                 }));
             }
-            if o.violation.is_some() && st.first_violation.is_none() {
-                st.first_violation = Some((i, ci, case.clone(), o));
-                return st; // stop this range at its first violation
+            if let Some((class, _)) = &o.violation {
+                let key = finding_key(class, case);
+                if st.violations.len() < 256 && !st.violations.contains_key(&key) {
+                    st.violations.insert(key, (i, ci, case.clone(), o));
+                }
             }
         }
     }
@@ -315,7 +318,7 @@ fn same_class(case: &Case, class: &Class) -> Option<Outcome> {
 }
 
 /// Shrink a failing case while the same class of violation persists.
-fn minimise(mut case: Case, class: &Class) -> (Case, Outcome, u32) {
+fn minimise(mut case: Case, class: &Class, known_keys: &[String]) -> (Case, Outcome, u32) {
     let mut steps = 0;
     let mut best = same_class(&case, class).expect("minimise called on a passing case");
     macro_rules! try_case {
@@ -406,6 +409,9 @@ fn minimise(mut case: Case, class: &Class) -> (Case, Outcome, u32) {
     // finally: the simplest type of the table that shows the same class of violation
     for (name, _) in TYPES.iter() {
         let name = name.to_string();
+        if known_keys.contains(&format!("{:?}:{}", class, name)) {
+            continue; // never minimise an unlisted finding into the identity of a listed one
+        }
         transforms.push(Box::new(move |c| {
             let cur = TYPES.iter().position(|(n, _)| *n == c.type_name).unwrap_or(0);
             let cand = TYPES.iter().position(|(n, _)| *n == name).unwrap_or(usize::MAX);
@@ -547,9 +553,10 @@ fn main() {
             if total.samples.len() < 4 {
                 total.samples.extend(s.samples.into_iter().take(2));
             }
-            if let Some(v) = s.first_violation {
-                if total.first_violation.as_ref().map_or(true, |b| (v.0, v.1) < (b.0, b.1)) {
-                    total.first_violation = Some(v);
+            for (k, v) in s.violations {
+                let better = total.violations.get(&k).map_or(true, |b| (v.0, v.1) < (b.0, b.1));
+                if better {
+                    total.violations.insert(k, v);
                 }
             }
         }
@@ -563,42 +570,47 @@ fn main() {
     let det_values = (values / 4).clamp(1, 2000);
     let d1 = run_all(threads, det_values);
     let d2 = run_all(3, det_values);
-    let deterministic = d1.digest == d2.digest && d1.cases == d2.cases && d1.first_violation.is_none() == d2.first_violation.is_none();
-    if !deterministic && d1.first_violation.is_none() && d2.first_violation.is_none() {
+    let deterministic = d1.digest == d2.digest && d1.cases == d2.cases && d1.violations.keys().eq(d2.violations.keys());
+    if !deterministic {
         eprintln!("HARNESS ERROR: two executions of seed {seed} differ (digest {:x} vs {:x}, cases {} vs {})", d1.digest, d2.digest, d1.cases, d2.cases);
         std::process::exit(2);
     }
 
     let mut exit = 0;
-    let mut violations = 0;
+    let mut violations: i32 = 0;
     let mut known_hits: Vec<String> = vec![];
-    if let Some((vi, ci, case, o)) = &st.first_violation {
-        let (class, msg) = o.violation.clone().unwrap();
-        let (mcase, mo, steps) = minimise(case.clone(), &class);
-        let key = finding_key(&class, &mcase);
-        let known = known_findings(&format!("{verif_dir}/known_findings.json"));
-        if let Some((_, what)) = known.iter().find(|(k, _)| *k == key) {
+    let known = known_findings(&format!("{verif_dir}/known_findings.json"));
+    let mut found: Vec<(&String, &(u64, usize, Case, Outcome))> = st.violations.iter().collect();
+    found.sort_by_key(|(_, v)| (v.0, v.1));
+    let mut unknown_keys: Vec<String> = vec![];
+    for (key, (vi, ci, case, o)) in found {
+        if let Some((_, what)) = known.iter().find(|(k, _)| k == key) {
             println!("KNOWN-FINDING: property=C18 {key}: {what}");
-            known_hits.push(key);
-        } else {
-            violations = 1;
-            let dir = format!("{verif_dir}/replays");
-            let _ = std::fs::create_dir_all(&dir);
-            let path = format!("{dir}/C18-seed{seed}-v{vi}-c{ci}.json");
-            let rf = ReplayFile {
-                property: "C18".into(), class: class.clone(), message: mo.violation.as_ref().map(|v| v.1.clone()).unwrap_or(msg), seed, value_index: *vi, case_index: *ci,
-                case: mcase.clone(), minimised_from: if mcase != *case { Some(case.clone()) } else { None }, minimise_steps: steps,
-                rendering: mo.reference_text.clone(), sink_holds: mo.sink_text.clone(), returned_ok: mo.returned_ok,
-                history: mo.history.iter().map(|e| format!("{}:{}/{}", e.kind, e.taken, e.len)).collect(), finding_key: key.clone(),
-            };
-            std::fs::write(&path, serde_json::to_string_pretty(&rf).unwrap()).expect("cannot write replay file");
-            println!("violation class {class:?} on {} (value {vi}, case {ci}); minimised in {steps} steps to {:?}", mcase.type_name, mcase.sink);
-            println!("  {}", rf.message);
-            println!("VIOLATION property=C18 replay={path}");
-            exit = 1;
+            known_hits.push(key.clone());
+            continue;
         }
+        unknown_keys.push(key.clone());
+        if exit == 1 {
+            continue; // one VIOLATION line and one replay file per run; the other keys are listed in the evidence
+        }
+        let (class, msg) = o.violation.clone().unwrap();
+        let (mcase, mo, steps) = minimise(case.clone(), &class, &known.iter().map(|(k, _)| k.clone()).collect::<Vec<_>>());
+        let dir = format!("{verif_dir}/replays");
+        let _ = std::fs::create_dir_all(&dir);
+        let path = format!("{dir}/C18-seed{seed}-v{vi}-c{ci}.json");
+        let rf = ReplayFile {
+            property: "C18".into(), class: class.clone(), message: mo.violation.as_ref().map(|v| v.1.clone()).unwrap_or(msg), seed, value_index: *vi, case_index: *ci,
+            case: mcase.clone(), minimised_from: if mcase != *case { Some(case.clone()) } else { None }, minimise_steps: steps,
+            rendering: mo.reference_text.clone(), sink_holds: mo.sink_text.clone(), returned_ok: mo.returned_ok,
+            history: mo.history.iter().map(|e| format!("{}:{}/{}", e.kind, e.taken, e.len)).collect(), finding_key: key.clone(),
+        };
+        std::fs::write(&path, serde_json::to_string_pretty(&rf).unwrap()).expect("cannot write replay file");
+        println!("violation class {class:?} on {} (value {vi}, case {ci}); minimised in {steps} steps to {} {:?}", case.type_name, mcase.type_name, mcase.sink);
+        println!("  {}", rf.message);
+        println!("VIOLATION property=C18 replay={path}");
+        exit = 1;
     }
-
+    violations = unknown_keys.len() as i32;
     let wall = t0.elapsed().as_secs_f64();
     let rule = "one case = (type, seeded value with presence pattern and dimensions, sink kind, fault plan) executed against the real Display code; \
 for every value the fault-free case, EVERY single-fault position (fmt: reject-once and reject-from at each write_str call; io: error, EINTR, 1-byte short write at each write call) \
@@ -631,6 +643,7 @@ and seeded multi-fault plans (capacity, random rejection, fault sets, mixed io f
             "stubbed_components": ["the sink: fmt::Write (all-or-nothing) and io::Write (short writes, EINTR, errors) under the simulator's fault plans"],
             "invariants": ["I1 layout: fault-free text reads as exactly the stored values and symbols", "I2 complete: reported success implies the sink holds the complete text", "I3 no spurious error or panic when the sink accepted everything"],
             "known_findings_hit": known_hits,
+            "unlisted_finding_keys": unknown_keys,
             "exhaustive": false
         },
         "assumptions": [
